@@ -96,6 +96,10 @@ func scenarios() []scenario {
 			{c("A | join (B | join kind=leftouter (C) on $left.b == $right.c) on $left.a == $right.b | count", -1)},
 			{{"walk", "T | where a > 1 and b in (1, 2) | join (R | project k, y) on k | project a, s = strcat(b, 'x') | top 3 by a", -1}},
 		}},
+		{Name: "S11-long-pipeline-two-faults", Threads: [][]call{
+			{c("T | where a > 1 | project a, b | where not() | extend c = a + 1 | sort by a | summarize a = max(a), b = max(b) by c | project a, b, c | where a > 1 | project a, b | extend c = a + 1 | sort by a | project a, c | where isnull(a, c) | project a | count", -1)},
+			{c("T | where not(a)", -1)},
+		}},
 		{Name: "S6-two-threads-two-calls", Threads: [][]call{
 			{c("T | where isnotnull(a)", -1), c("T | where isnotnull(a)", -1)},
 			{c("T | extend x = tolower(s)", -1), {"parse", "T | count", -1}},
@@ -145,7 +149,30 @@ func recheckLive() (changed *live, now string) {
 	return nil, ""
 }
 
+// seqWrap: the code under test starts goroutines (rewritten into controlled threads): a call made outside an
+// exploration then runs as a one-thread execution of the scheduler (default schedule), so that those threads exist.
+var seqWrap = os.Getenv("VERIF_C14_REWRITTEN") != ""
+var seqEver = map[string]bool{}
+
 func doCall(c call, opts []*pql.CompileOptions) result {
+	if seqWrap && !rt.Active() {
+		var res result
+		ex, err := rt.Run([]func(){func() { res = doCallRaw(c, opts) }}, nil, nil, seqEver, 200000)
+		if err != nil {
+			panic(err)
+		}
+		if len(ex.Panics) > 0 {
+			panic(ex.Panics[0])
+		}
+		if ex.Deadlock {
+			return result{Err: "deadlock: the call does not return under the default schedule"}
+		}
+		return res
+	}
+	return doCallRaw(c, opts)
+}
+
+func doCallRaw(c call, opts []*pql.CompileOptions) result {
 	switch c.Kind {
 	case "compile":
 		var sql string
@@ -242,8 +269,13 @@ type explorer struct {
 	capped   bool
 	failed   bool
 	// seen: state key -> fewest preemptions with which the state has been expanded (state-key pruning)
-	seen   map[uint64]int
-	pruned int64
+	seen        map[uint64]int
+	pruned      int64
+	devDeadline time.Time
+	devCapped   bool
+	devDone     int
+	// unsupported: the execution met a construct the scheduler cannot own (e.g. an unbuffered channel)
+	unsupported string
 }
 
 type obs struct {
@@ -312,6 +344,13 @@ func (e *explorer) check(ex *rt.Execution, o *obs, prefix []int, err error) {
 		fail("deadlock", "no thread enabled although some have not finished")
 		return
 	}
+	for _, p := range ex.Panics {
+		if u, ok := p.(rt.Unsupported); ok {
+			e.capped = true
+			e.unsupported = u.What
+			return
+		}
+	}
 	if len(ex.Panics) > 0 {
 		fail("panic-in-thread", fmt.Sprintf("%v", ex.Panics[0]))
 		return
@@ -349,6 +388,43 @@ func (e *explorer) check(ex *rt.Execution, o *obs, prefix []int, err error) {
 		}
 	}
 	e.outcomes[fmt.Sprintf("%v", o.results)] = true
+}
+
+// exploreDev explores every schedule that departs from the default choice (the running thread, else the lowest
+// id) at no more than dev points: with many threads this reaches "thread k runs first" after one departure, which
+// the depth-first preemption-bounded search below reaches only after exhausting the subtrees before it.
+func (e *explorer) exploreDev(prefix []int, dev int) {
+	if e.failed || e.grew {
+		return
+	}
+	if time.Now().After(e.devDeadline) {
+		e.devCapped = true
+		return
+	}
+	e.w.Begin("interleavings:"+e.sc.Name, e.sc.Name)
+	ex, o, err := e.runOnce(prefix)
+	e.execs++
+	e.decis += int64(len(ex.Points))
+	e.nodes += int64(len(ex.Points) - len(prefix))
+	for w := range ex.Written {
+		if !e.ever[w] {
+			e.ever[w] = true
+			e.grew = true
+		}
+	}
+	e.check(ex, o, prefix, err)
+	if e.failed || e.grew || dev == 0 {
+		return
+	}
+	ch := choices(ex)
+	for i := len(prefix); i < len(ex.Points); i++ {
+		for alt := 1; alt < len(ex.Points[i].Enabled); alt++ {
+			e.exploreDev(append(append([]int{}, ch[:i]...), alt), dev-1)
+			if e.failed || e.grew {
+				return
+			}
+		}
+	}
 }
 
 func (e *explorer) explore(prefix []int, bound int) {
@@ -464,7 +540,7 @@ func main() {
 		}
 		return true, ""
 	}
-	r.Rule = "stateless model checking of the real pql code under a controlled cooperative scheduler: 10 scenarios of 2-3 threads x 1-3 calls (cold start of the lazily built function table, shared options value with let statements, Parse/Scan/SplitStatements, mixed) are explored exhaustively over all interleavings of scheduling points " +
+	r.Rule = "stateless model checking of the real pql code under a controlled cooperative scheduler: 11 scenarios of 2-3 threads x 1-3 calls (cold start of the lazily built function table, shared options value with let statements, Parse/Scan/SplitStatements, mixed) are explored exhaustively over all interleavings of scheduling points " +
 		"(every access to a package-level variable that is ever written, every access to a shared map that is ever written, every sync/atomic operation) up to a preemption bound, plus all sequential call histories up to depth 3; oracle: each call returns exactly what it returns when made first in a fresh state, " +
 		"no co-enabled conflicting accesses (data race), no deadlock, parameter maps unchanged. states = nodes of the schedule tree, transitions = scheduling decisions executed, traces validated = complete executions of the real code"
 	r.Assume = []string{"sequentially consistent interleavings at instrumented points; reads of objects that no execution ever writes commute and are not scheduling points (iterated to a fixpoint)",
@@ -498,7 +574,24 @@ func main() {
 			e.expected = sequentialResults(sc)
 			completed := -1
 			restarts := 0
-			for bi := 0; bi < len(bounds); bi++ {
+			// departures from the default schedule first (at most a third of the scenario's time)
+			maxDev := 1
+			if tier == "thorough" {
+				maxDev = 2
+			}
+			e.devDeadline = time.Now().Add(per / 3)
+			for d := 1; d <= maxDev && !e.failed && !e.devCapped; d++ {
+				e.grew = false
+				e.exploreDev(nil, d)
+				if e.grew {
+					d-- // new written objects: more scheduling points exist; repeat this bound
+					continue
+				}
+				if !e.devCapped && !e.failed {
+					e.devDone = d
+				}
+			}
+			for bi := 0; bi < len(bounds) && !e.failed; bi++ {
 				e.grew = false
 				e.seen = map[uint64]int{}
 				e.explore(nil, bounds[bi])
@@ -525,8 +618,10 @@ func main() {
 			}
 			sort.Strings(ever)
 			info[sc.Name] = map[string]any{"executions": e.execs, "preemption_bound_completed": completed, "max_preemptions_explored": e.maxPre,
-				"distinct_outcomes": len(e.outcomes), "states_pruned_by_key": e.pruned, "distinct_state_keys_last_bound": len(e.seen), "written_objects": ever, "restarts_for_new_written_objects": restarts, "time_capped": e.capped}
-			if e.capped {
+				"departures_from_default_completed": e.devDone, "distinct_outcomes": len(e.outcomes), "states_pruned_by_key": e.pruned, "distinct_state_keys_last_bound": len(e.seen), "written_objects": ever, "restarts_for_new_written_objects": restarts, "time_capped": e.capped}
+			if e.unsupported != "" {
+				r.Cap(fmt.Sprintf("%s: not explored: %s (outside what the scheduler controls)", sc.Name, e.unsupported))
+			} else if e.capped {
 				r.Cap(fmt.Sprintf("%s: time budget reached after completing preemption bound %d", sc.Name, completed))
 			}
 			// conformance of the in-process reset: thread-order schedule in a fresh process
